@@ -13,7 +13,7 @@ from sa.report import Ctx
 from .common import generic_sweeps
 from sa.stutter import stutter_paths
 
-from .sat_common import SatRoles, check_add_sites, check_binary_add, check_binary_clear, check_assumption_assertion, check_analysis, check_assign, check_backtrack, check_bcp, check_main_loop, check_heap_flags, check_variable_ranges, check_variable_universe, check_input_copy
+from .sat_common import SatRoles, check_add_sites, check_binary_add, check_binary_clear, check_assumption_assertion, check_analysis, check_assign, check_backtrack, check_bcp, check_main_loop, check_heap_flags, check_trail_ownership, check_variable_ranges, check_variable_universe, check_input_copy
 
 EXPLANATION = (
     "Decides structural necessary conditions of 'INFEASIBLE only without a model / always returns within budgets' on "
@@ -45,6 +45,7 @@ def run(ctx: Ctx):
     ctx.assume("conflict-only cycles terminate because consecutive conflicts strictly lower the decision level (not verified)")
     ctx.step(check_heap_flags, "C02-O8")
     ctx.step(check_variable_ranges, "C02-O8")
+    ctx.step(check_trail_ownership, "C02-O8")
     ctx.step(check_variable_universe, "C02-O10")
     ctx.step(check_assign, "C02-O11")
     ctx.step(check_bcp, "C02-O12")
